@@ -209,3 +209,52 @@ for _f, _kind in (('CEILING', 'ceil'), ('FLOOR', 'floor')):
             cases=[Case(f'{_f}(x, {_s}) is the {"smallest multiple of the significance not below" if _kind == "ceil" else "greatest multiple of the significance not above"} x (exact decimal arithmetic)',
                         lambda x: True, (lambda k, s: lambda x, out: spec.numeric_result(out, _mult_ref(k, x.value, s), tol=1e-9))(_kind, _s))],
             call=(lambda s: lambda it, fn, x: it.call(fn, [x, s], {}))(_s), native_call=(lambda s: lambda fn, x: fn(x, s))(_s), bounded_domain_cap=40))
+
+
+# ---- whole-number powers and the end of the double range ------------------------------------------------------------------------------------
+# base ^ k for a SYMBOLIC whole-number base and k = 2, 3 (exact integer arithmetic): the exact power while it fits a double (below 2**1024 - 2**970), otherwise
+# the exact power or #NUM!.
+DBL_MAX_INT = 2 ** 1024 - 2 ** 970
+
+
+def ipow_call(native, k):
+    def call(it, fn, a):
+        t = T()
+        if native:
+            try:
+                return t.ExcelType.__pow__(a, t.Number(k))
+            except spec.E().ExcelError as ex:
+                return ex
+        try:
+            return it.call(t.ExcelType.__pow__, [a, t.Number(k)], {})
+        except Exception as r:
+            exc = getattr(r, 'exc', None)
+            if isinstance(exc, spec.E().ExcelError):
+                return exc
+            raise
+    if native:
+        return lambda fn, a: call(None, fn, a)
+    return call
+
+
+def ipow_ens(k):
+    def ens(a, out):
+        v = a.value
+        p = v
+        for _ in range(k - 1):
+            p = p * v
+        mag = Ite(p >= 0, p, 0 - p) if is_sym(p) else abs(p)
+        fits = mag < DBL_MAX_INT
+        # (that a power beyond the range IS rejected rests on float(int) raising OverflowError, which the integer model does not
+        #  have - assumption A-int; the bounded layer checks those cases)
+        return And(Implies(fits, spec.is_number(out, p)), Or(spec.is_number(out, p), spec.is_error(out, 'NumExcelError')))
+    return ens
+
+
+for _k in (2, 3):
+    UNITS.append(Unit(
+        id=f'C16/func_xltypes.ExcelType.__pow__[whole base ^ {_k}]', target='xlcalculator.xlfunctions.func_xltypes:ExcelType.__pow__',
+        inputs=[('a', Xl('Number', 'int', domain=[0, 1, -1, 2, -3, 10, 2 ** 511, 2 ** 511 + 1, 2 ** 512, -2 ** 341, 2 ** 341, 2 ** 342, 10 ** 154, 10 ** 155]))],
+        cases=[Case(f'a whole number to the power {_k} is the exact power whenever that fits a double (never #NUM! inside the range)',
+                    lambda a: True, ipow_ens(_k))],
+        call=ipow_call(False, _k), native_call=ipow_call(True, _k), timeout_ms=20000))
